@@ -3,24 +3,12 @@
    "streamID <= lastSeen" coincides with the per-stream flag the components use. *)
 From Coq Require Import List Bool Arith Lia.
 From RecordUpdate Require Import RecordUpdate.
-From GT Require Import Rpc RpcInv RpcProofs RpcSystem MultiRpc MultiRpcProofs.
+From GT Require Import Rpc RpcInv RpcProofs RpcSystem MultiRpc MultiRpcProofs RpcCheckV6.
 Import ListNotations.
 
 Definition newsof (q : list (nat * cframe)) : list nat := map fst (filter (fun p => is_new (snd p)) q).
 
 (* facts about single steps of the components, from every control state *)
-Definition kids_check (k : ck) : bool :=
-  forallb (fun l => match kstep k l with
-                    | None => true
-                    | Some (k', em) =>
-                        match l with
-                        | CNew => (negb (k_new k) && k_new k' && match em with [FNew] => true | _ => false end) ||
-                                  (Bool.eqb (k_new k') (k_new k) && match em with [] => true | _ => false end)   (* refused: the channel has ended *)
-                        | _ => Bool.eqb (k_new k') (k_new k) && no_new em
-                        end
-                    end) all_klbl.
-Lemma kids_all : forall_ck kids_check = true.
-Proof. vm_compute. reflexivity. Qed.
 Lemma kstep_ids k l k' em : kstep k l = Some (k', em) ->
   match l with
   | CNew => (k_new k = false /\ k_new k' = true /\ em = [FNew]) \/ (k_new k' = k_new k /\ no_new em = true)
@@ -37,17 +25,6 @@ Proof.
     destruct em; [auto|discriminate].
 Qed.
 
-Definition vids_check (strict : bool) (v : sv) : bool :=
-  forallb (fun l => match vstep strict v l with
-                    | None => true
-                    | Some (v', _) =>
-                        match l with
-                        | SLoop FNew _ => seen v'
-                        | _ => Bool.eqb (seen v') (seen v)
-                        end
-                    end) all_vlbl.
-Lemma vids_all : forall strict, forall_sv (vids_check strict) = true.
-Proof. intros []; vm_compute; reflexivity. Qed.
 Lemma vstep_ids strict v l v' em : vstep strict v l = Some (v', em) ->
   match l with
   | SLoop FNew _ => seen v' = true
